@@ -55,6 +55,26 @@ Section MapLemmas.
     - assert (k <> k') as Hn by (intros ->; rewrite eqb_refl' in E; discriminate).
       rewrite (get_del_neq _ _ _ Hn) in H. auto.
   Qed.
+
+  Lemma get_in : forall k (m : list (K * V)) v, get eqb k m = Some v -> In (k, v) m.
+  Proof.
+    intros k m v. induction m as [|[k' v'] m IH]; cbn; [discriminate|].
+    destruct (eqb k k') eqn:E; intros H.
+    - apply eqb_spec in E. subst k'. inversion H. left. reflexivity.
+    - right. exact (IH H).
+  Qed.
+
+  Lemma in_del : forall k k' (v : V) m, In (k, v) (del eqb k' m) -> k <> k' /\ In (k, v) m.
+  Proof.
+    intros k k' v m. induction m as [|[k2 v2] m IH]; cbn; [intros []|].
+    destruct (eqb k' k2) eqn:E.
+    - intros H. destruct (IH H) as [N I]. split; [exact N|right; exact I].
+    - intros [H|H].
+      + inversion H. subst. split; [|left; reflexivity].
+        intros ->. rewrite (eqb_refl' eqb eqb_spec) in E. discriminate.
+      + destruct (IH H) as [N I]. split; [exact N|right; exact I].
+  Qed.
+
 End MapLemmas.
 
 Arguments put : simpl never.
@@ -877,3 +897,130 @@ Proof.
   split; [vm_compute; reflexivity|]. intros w wr G. vm_compute in G.
   destruct w as [|[p|p|]]; try discriminate; inversion G; subst; vm_compute; discriminate.
 Qed.
+
+(* ====================================================================== *)
+(* the case model meets the oracle                                         *)
+(* ====================================================================== *)
+
+(* every listed pair of a map is what a look-up finds (no shadowed entries) *)
+Definition wfmap {K V} (eqb : K -> K -> bool) (m : list (K * V)) : Prop :=
+  forall k v, In (k, v) m -> get eqb k m = Some v.
+
+Section WfMap.
+  Context {K V : Type} (eqb : K -> K -> bool).
+  Hypothesis eqb_spec : forall a b, eqb a b = true <-> a = b.
+
+  Lemma wfmap_del : forall k (m : list (K * V)), wfmap eqb m -> wfmap eqb (del eqb k m).
+  Proof.
+    intros k m W a b I. destruct (in_del eqb eqb_spec _ _ _ _ I) as [N I'].
+    rewrite (get_del_neq eqb eqb_spec) by exact N. exact (W _ _ I').
+  Qed.
+
+  Lemma wfmap_put : forall k v (m : list (K * V)), wfmap eqb m -> wfmap eqb (put eqb k v m).
+  Proof.
+    intros k v m W a b I. unfold put in I. destruct I as [I|I].
+    - inversion I. subst. apply (get_put_eq eqb eqb_spec).
+    - destruct (in_del eqb eqb_spec _ _ _ _ I) as [N I'].
+      rewrite (get_put_neq eqb eqb_spec) by exact N. exact (W _ _ I').
+  Qed.
+End WfMap.
+
+Lemma step_wfdir : forall sha s e s', step sha s e = Some s' ->
+  wfmap String.eqb (s_dir s) -> wfmap String.eqb (s_dir s').
+Proof.
+  intros sha s e s' H W.
+  destruct e; cbn in H; repeat dmatch H; inversion H; subst; clear H; cbn; try exact W;
+    repeat first [ apply (wfmap_put String.eqb Seqb_spec) | apply (wfmap_del String.eqb Seqb_spec) ]; exact W.
+Qed.
+
+Lemma str_dat : forall b, str_of (dat_of b) = b.
+Proof. intros b. apply string_of_list_ascii_of_string. Qed.
+
+Section Oracle.
+Variable i : input.
+Notation sha := (sha_of (i_sha i)).
+
+(* every writer of the state is the one the case declares *)
+Definition decl (s : state) : Prop :=
+  forall w wr, getN w (s_w s) = Some wr ->
+    exists b, getN w (i_writers i) = Some (w_url wr, b) /\ w_content wr = dat_of b.
+
+Record good (s : state) : Prop := mk_good {
+  g_inv : inv sha s; g_wf : wfmap String.eqb (s_dir s); g_decl : decl s }.
+
+Lemma good_init : good init.
+Proof. split; [apply inv_init| intros k v []| intros w wr H; discriminate H]. Qed.
+
+Definition declared (e : event) : Prop :=
+  match e with
+  | ECreate w u c t => exists b, getN w (i_writers i) = Some (u, b) /\ c = dat_of b
+  | _ => True
+  end.
+
+Lemma step_good : forall s e s', good s -> safe e = true -> declared e -> step sha s e = Some s' -> good s'.
+Proof.
+  intros s e s' [I W D] S Dc H. split.
+  - exact (step_inv sha _ _ _ I S H).
+  - exact (step_wfdir _ _ _ _ H W).
+  - intros w wr G. destruct (step_w_origin sha _ _ _ _ _ H S G) as [[wr0 G0]|[t Ee]].
+    + destruct (step_w_stable sha _ _ _ _ _ H G0) as [wr1 [G1 [U [C _]]]].
+      assert (wr1 = wr) by congruence. subst wr1. rewrite <- U, <- C. exact (D _ _ G0).
+    + subst e. exact Dc.
+Qed.
+
+Lemma exec_good : forall tr s s', good s -> forallb safe tr = true -> Forall declared tr ->
+  exec sha s tr = Some s' -> good s'.
+Proof.
+  induction tr as [|e tr IH]; intros s s' G S F H; cbn in H.
+  - inversion H. subst. exact G.
+  - cbn in S. apply andb_true_iff in S. destruct S as [Se St]. inversion F; subst.
+    destruct (step sha s e) as [s1|] eqn:E; [|discriminate].
+    exact (IH _ _ (step_good _ _ _ G Se H2 E) St H3 H).
+Qed.
+
+Lemma macro_ok : forall s w, forallb safe (fst (macro i s w)) = true /\ Forall declared (fst (macro i s w)).
+Proof.
+  intros s w. unfold macro.
+  destruct (getN w (s_w s)) as [wr|].
+  - destruct (w_pc wr); cbn; try (split; [reflexivity|repeat constructor]).
+    destruct (getN (w_ino wr) (s_ino s)); cbn; [|split; [reflexivity|constructor]].
+    destruct (List.length (w_content wr) <=? List.length d); cbn; split; try reflexivity; repeat constructor.
+  - destruct (getN w (i_writers i)) as [[u b]|] eqn:Gw; cbn; [|split; [reflexivity|constructor]].
+    destruct (getN w (i_tmps i)) as [t|]; cbn; [|split; [reflexivity|constructor]].
+    split; [reflexivity|]. constructor; [|constructor]. cbn. exists b. split; [exact Gw|reflexivity].
+Qed.
+
+Lemma read_events_ok : forall r u s,
+  forallb safe (read_events sha r u s) = true /\ Forall declared (read_events sha r u s).
+Proof.
+  intros r u s. unfold read_events. destruct (getS (key sha u) (s_dir s)); cbn;
+    (split; [reflexivity|repeat constructor]).
+Qed.
+
+(* what the key of a declared writer is, in the oracle's terms *)
+Lemma decl_wkey : forall s w wr b, getN w (i_writers i) = Some (w_url wr, b) ->
+  wkey i w = key sha (w_url wr) /\ wbundle i w = b.
+Proof. intros s w wr b G. unfold wkey, wbundle, ukey. rewrite G. split; reflexivity. Qed.
+
+(* ---------- the listing ---------- *)
+Lemma listing_model_ok : forall s, good s ->
+  forallb (fun nt : string * string =>
+    if keyshape (fst nt)
+    then existsb (fun w => String.eqb (wkey i (fst w)) (fst nt) && String.eqb (wbundle i (fst w)) (snd nt)) (i_writers i)
+    else true) (listing s) = true.
+Proof.
+  intros s [I W D]. apply forallb_forall. intros [name tag] Hin.
+  unfold listing in Hin. apply in_map_iff in Hin. destruct Hin as [[n ino] [E Hin]].
+  cbn in E. inversion E; subst; clear E. cbn [fst snd].
+  destruct (keyshape n) eqn:Ks; [|reflexivity].
+  pose proof (W _ _ Hin) as G.
+  destruct (inv_d _ _ I _ _ G) as [T|[wr [Dn K]]].
+  { rewrite (temp_not_keyshape _ T) in Ks. discriminate. }
+  rewrite (done_data _ _ _ _ I Dn).
+  destruct (D _ _ (proj1 Dn)) as [b [Gw C]].
+  apply existsb_exists. exists (ino, (w_url wr, b)). split.
+  - exact (get_in N.eqb Neqb_spec _ _ _ Gw).
+  - cbn [fst]. destruct (decl_wkey s _ _ _ Gw) as [Wk Wb]. rewrite Wk, Wb, K, C, str_dat.
+    rewrite !String.eqb_refl. reflexivity.
+Qed.
+End Oracle.
